@@ -7,6 +7,7 @@ mod c01;
 mod c04;
 mod c05;
 mod c07;
+mod c08;
 mod c19;
 mod pipe;
 mod util;
@@ -45,6 +46,7 @@ fn main() {
                 "C01" => c01::record(&mut rec, seed, thorough),
                 "C05" => c05::record(&mut rec, seed, thorough),
                 "C07" => c07::record(&mut rec, seed, thorough),
+                "C08" => c08::record(&mut rec, seed, thorough),
                 _ => {
                     eprintln!("unknown property {}", prop);
                     std::process::exit(2);
